@@ -8,13 +8,14 @@ own hooks and never advances the clock, so it sees exactly the values Rally read
 """
 from __future__ import annotations
 
+import hashlib
 import json
 import math
 import random
 
 from sim import rallyenv
 from sim.batch import Harness, RunResult
-from sim.loadsim import LoadSim, ScheduleObserver, SimParamSource, SimPollRunner, SimRunner, history_digest
+from sim.loadsim import LoadSim, LoadStuck, ScheduleObserver, SimParamSource, SimPollRunner, SimRunner, history_digest
 from sim.simes import Installed, Outcome, SimES
 from sim.vclock import EPOCH, Proc, VClock
 
@@ -511,7 +512,15 @@ class LoadgenHarness(Harness):
                 sim.at(cfg["complete_at"], lambda: [w.complete.set() for w in sim.workers])
             if "cancel_at" in cfg:
                 sim.at(cfg["cancel_at"], lambda: [w.cancel.set() for w in sim.workers])
-            sim.run(tie_window=cfg.get("tie_window", 0))
+            try:
+                sim.run(tie_window=cfg.get("tie_window", 0))
+            except LoadStuck as e:
+                sim.shutdown()
+                if e.kind == "budget":
+                    # busy, not stuck: nothing is judged
+                    return RunResult(digest=hashlib.sha1(f"budget|{json.dumps(cfg, sort_keys=True)}".encode()).hexdigest(), nontrivial=False, violations=[], stats={"steps": sim.steps, "sim_s": clock.now, "faults": {}, "probes": {"inconclusive_step_budget": 1}}, sample=None)
+                # every generated task ends by itself (iterations, time period, finite source or external completion)
+                return RunResult(digest=hashlib.sha1(f"{e.kind}|{json.dumps(cfg, sort_keys=True)}".encode()).hexdigest(), nontrivial=True, violations=[{"oracle": "liveness", "key": f"liveness:{e.kind}", "message": f"the load generators do not come to an end: {e}"}], stats={"steps": sim.steps, "sim_s": clock.now, "faults": {}, "probes": {}}, sample=None)
 
         # ------------------------------------------------------------------------------
         # oracles
